@@ -1,12 +1,133 @@
+/-
+  C11 — Acknowledgement by the mapper is recognised from the Discover.
+-/
 import LLTD.Model.Event
-import LLTD.Spec.Table
 import LLTD.Spec.Event
-import LLTD.Spec.Tick
-import LLTD.Lemmas.Table
+import LLTD.Lemmas.XVals
+import LLTD.Lemmas.Bytes
 
 namespace LLTD.C11
 open LLTD LLTD.Spec
 
-theorem table_size : X.maxEntries = 16 := by decide
+/-- the scan over `k` list entries from index `i` finds the address iff it is among those entries — wherever it stands -/
+theorem scan_contains (img : List Nat) (base : Nat) (our : Mac) :
+    ∀ (k i : Nat), (stationScan img base 6 our k i).1 = ((List.range' i k).map (fun j => slice img (base + j * 6) 6)).contains our := by
+  intro k
+  induction k with
+  | zero => intro i; rfl
+  | succ k ih =>
+    intro i
+    rw [stationScan, List.range'_succ, List.map_cons, List.contains_cons]
+    by_cases h : slice img (base + i * 6) 6 = our
+    · have hb : (slice img (base + i * 6) 6 == our) = true := by rw [h]; exact beq_self_eq_true our
+      have hb' : (our == slice img (base + i * 6) 6) = true := by rw [h]; exact beq_self_eq_true our
+      rw [if_pos hb, hb']; rfl
+    · have hb : ¬ (slice img (base + i * 6) 6 == our) = true := by
+        intro hc; exact h (eq_of_beq hc)
+      have hb' : (our == slice img (base + i * 6) 6) = false := by
+        cases hq : (our == slice img (base + i * 6) 6) with
+        | false => rfl
+        | true => exact absurd (eq_of_beq hq).symm h
+      rw [if_neg hb, hb', Bool.false_or]
+      exact ih (i + 1)
+
+theorem stationCount_min (img : List Nat) : stationCount img = min (unbe (slice img 34 2)) ((img.length - 36) / 6) := by
+  unfold stationCount
+  simp only [X.sizeofDemux_val, X.offDiscCount_val, X.offDiscList_val, X.strideStation_val, Nat.reduceAdd]
+  split <;> omega
+
+/-- the classifier's acknowledgement bit = "the own address is among the stations the Discover lists and holds" -/
+theorem ack_iff_listed (img : List Nat) (our : Mac) (h : unbe (slice img 34 2) ≠ 0) :
+    (ackScan img (some our)).1 = (stationsHeld img).contains our := by
+  unfold ackScan
+  simp only [X.sizeofDemux_val, X.offDiscCount_val, X.offDiscList_val, X.strideStation_val, Nat.reduceAdd, h, if_false]
+  rw [scan_contains, stationCount_min]
+  unfold stationsHeld
+  simp only [List.range_eq_range']
+  congr 2
+  funext j
+  congr 1
+  omega
+
+/-- the live sessions of a table, as the specification sees them -/
+def sessionsOf (tbl : Option Table) : List Sess := match tbl with | some t => (viewOf t).live | none => []
+
+theorem find_live (es : List Entry) (mac : Mac) (gen : Nat) :
+    ((es.filter (·.valid)).map sessOf).find? (fun s => s.mac == mac && s.gen == gen) =
+      (es.find? (fun e => e.matches mac gen)).map sessOf := by
+  induction es with
+  | nil => rfl
+  | cons e es ih =>
+    by_cases hv : e.valid = true
+    · simp only [List.filter_cons, hv, if_true, List.map_cons, List.find?_cons]
+      by_cases hm : (e.mac == mac && e.gen == gen) = true
+      · simp [sessOf, Entry.matches, hv, hm]
+      · simp only [Bool.not_eq_true] at hm
+        simp only [sessOf, Entry.matches, hv, Bool.true_and, hm]
+        exact ih
+    · simp only [Bool.not_eq_true] at hv
+      simp only [List.filter_cons, hv, Bool.false_eq_true, if_false, List.find?_cons, Entry.matches, Bool.false_and]
+      exact ih
+
+/-- THE CLASSIFICATION THEOREM: for every frame image, every session table and every own address the event
+    returned is the specified one (acknowledging ⇔ listed, changed ⇔ known under another sequence number,
+    Reset topology-wide ⇔ broadcast, Hello, nothing for every other opcode) -/
+theorem classify (img : List Nat) (tbl : Option Table) (our : Mac) :
+    holdsC11 img (sessionsOf tbl) our (deriveCode img tbl (some our)) = true := by
+  unfold holdsC11 deriveCode
+  simp only [X.sizeofDemux_val, X.offDiscList_val]
+  by_cases h32 : img.length < 32
+  · simp [h32]
+  · simp only [h32, if_false]
+    have hop : byteAt img 17 = fOpcode img := by simp [fOpcode]
+    rw [hop]
+    by_cases h8 : fOpcode img = 8
+    · have hrd : slice img 18 6 = fRealDst img := by simp [fRealDst]
+      simp only [h8, X.opReset_val, if_true, hrd]
+      by_cases hb : fRealDst img == bcast <;> simp [hb]
+    · by_cases h1 : fOpcode img = 1
+      · simp [h8, h1]
+      · by_cases h0 : fOpcode img = 0
+        · simp only [h0, X.opReset_val, X.opHello_val, X.opDiscover_val]
+          by_cases h36 : img.length < 32 + 4
+          · have : img.length < 36 := by omega
+            simp [h36, this]
+          · have h36' : ¬ img.length < 36 := by omega
+            simp only [h36, h36', if_false]
+            unfold discoverEvent
+            have hfind : (existingOf tbl (fRealSrc img) (fDiscGen img)).map sessOf =
+                (sessionsOf tbl).find? (fun s => s.mac == slice img 24 6 && s.gen == unbe (slice img 32 2)) := by
+              have e1 : slice img 24 6 = fRealSrc img := by simp [fRealSrc]
+              have e2 : unbe (slice img 32 2) = fDiscGen img := by simp [fDiscGen]
+              rw [e1, e2]
+              cases tbl with
+              | none => rfl
+              | some t => simp only [sessionsOf, viewOf, existingOf]; exact (find_live t.entries _ _).symm
+            rw [← hfind]
+            have exid : unbe (slice img 30 2) = fSeq img := by simp [fSeq]
+            rw [exid]
+            generalize existingOf tbl (fRealSrc img) (fDiscGen img) = ex
+            by_cases hd0 : unbe (slice img 34 2) = 0
+            · have hack : (ackScan img (some our)).1 = true := by
+                unfold ackScan; simp [hd0]
+              cases ex with
+              | none => simp [hack, hd0]
+              | some e => by_cases hs : e.seq = fSeq img <;> simp [hack, hd0, sessOf, hs]
+            · have hack := ack_iff_listed img our hd0
+              have hge : unbe (slice img 34 2) ≥ 1 := by omega
+              by_cases hl : our ∈ stationsHeld img
+              · have hc : (stationsHeld img).contains our = true := by simpa using hl
+                cases ex with
+                | none => simp [hack, hc, hl, hge]
+                | some e => by_cases hs : e.seq = fSeq img <;> simp [hack, hc, hl, hge, sessOf, hs]
+              · have hc : (stationsHeld img).contains our = false := by simpa using hl
+                cases ex with
+                | none => simp [hack, hc, hl, hge]
+                | some e => by_cases hs : e.seq = fSeq img <;> simp [hack, hc, hl, hge, sessOf, hs]
+        · simp [h8, h1, h0]
+
+/-- non-vacuity: own address in position 0 of a one-station list, exactly filling the frame (the cell repaired in d695352) -/
+example : deriveCode ([255,255,255,255,255,255, 2,0,0,0,0,0x11, 0x88,0xd9, 1,0,0,0, 255,255,255,255,255,255, 2,0,0,0,0,0x11, 0,5,
+    0,7, 0,1, 2,0xaa,0xbb,0xcc,0xdd,1]) none (some [2,0xaa,0xbb,0xcc,0xdd,1]) = 3 := by decide
 
 end LLTD.C11
